@@ -109,7 +109,7 @@ def near_floor(exp):
 
 
 def _dt(arr_dtype):
-    return {np.dtype(np.float64): "f8", np.dtype(np.float32): "f4", np.dtype(np.float16): "f2", np.dtype(np.int64): "i8"}[np.dtype(arr_dtype)]
+    return {np.dtype(np.float64): "f8", np.dtype(np.float32): "f4", np.dtype(np.float16): "f2", np.dtype(np.int64): "i8"}[np.dtype(arr_dtype).newbyteorder("=")]
 
 
 class SiRecorder:
@@ -194,7 +194,7 @@ def record_and_validate(run, tier, rng, prop):
                     rec = SiRecorder(comp)
                     dts = [np.float64] if prop == "C01" else [np.float64, np.float32]
                     for dt in dts:
-                        xx = x.astype(dt)
+                        xx = common.relayout(x.astype(dt), common.LAYOUTS[(N + len(chunkings) + np.dtype(dt).itemsize) % len(common.LAYOUTS)])
                         xx.flags.writeable = False
                         if comp_ is None:
                             vals = rec.call("full", xx)
